@@ -750,7 +750,11 @@ impl Service {
                 // We never send an ENR request in combination of other requests.
                 if distances_requested.len() == 1 && distances_requested[0] == 0 {
                     // we requested an ENR update
-                    if nodes.len() > 1 {
+                    if nodes.len() > 1
+                        || nodes
+                            .iter()
+                            .any(|enr| peer_key.log2_distance(&enr.node_id().into()).is_some())
+                    {
                         warn!(
                             %node_address,
                             "Peer returned more than one ENR for itself. Blacklisting",
@@ -765,7 +769,8 @@ impl Service {
                         peer_key
                             .log2_distance(&enr.node_id().into())
                             .map(|distance| distances_requested.contains(&distance))
-                            .unwrap_or_else(|| false)
+                            // The peer's own record is at distance 0.
+                            .unwrap_or_else(|| distances_requested.contains(&0))
                     });
 
                     if nodes.len() < before_len {
